@@ -1,6 +1,6 @@
 (* Driver entry for the system model (C02, C12, C18, C03). *)
 From Coq Require Import List String Ascii Arith Bool ZArith.
-From PC Require Import Base.Sexp Comp.Syntax Comp.Compile Subst.VarSubst Sys.System Run.RComp.
+From PC Require Import Base.Sexp Comp.Syntax Comp.Compile Subst.VarSubst Sys.System Sys.Des Run.RComp.
 Import ListNotations.
 Local Open Scope string_scope.
 
@@ -26,6 +26,27 @@ Definition run_sys (req : sexp) : sexp :=
           | Err k => sErr k
           end
       | _, _, _, _, _ => bad_request
+      end
+  | _ => bad_request
+  end.
+
+Definition s_dline (l : dline) : sexp :=
+  match l with
+  | DStruct n s => Li [At "structure"; At n; s_syms s]
+  | DSeq n k => Li [At "sequence"; At n; At (unchars k)]
+  | DAssign n seqs => Li [At "assign"; At n; sL s_name seqs]
+  | DObjective n o => Li [At "objective"; At n; sN o]
+  end.
+Definition run_des (req : sexp) : sexp :=
+  match req with
+  | Li [files; incs; ctr; At base; args] =>
+      match dL d_fentry files, dL dS incs, dN ctr, dL dZ args with
+      | Some fs, Some incs, Some ctr, Some args =>
+          match compile_des fs incs ctr base args with
+          | OK (lines, ctr') => sOk (Li [sN ctr'; sL s_dline lines])
+          | Err k => sErr k
+          end
+      | _, _, _, _ => bad_request
       end
   | _ => bad_request
   end.
